@@ -187,6 +187,32 @@ MoveForms(mv) ==
   \cup (IF mv[2] = 0 THEN {App("hmoveto", <<mv[1]>>)} ELSE {})
   \cup (IF mv[1] = 0 THEN {App("vmoveto", <<mv[2]>>)} ELSE {})
 
+\* A run that fills the operand stack of a CFF charstring (48 entries, TN5177 appendix B) for one operator;
+\* "+": the form with the optional leading / trailing argument
+FullOps == {"rlineto", "hlineto", "vlineto", "rrcurveto", "rcurveline", "rlinecurve", "hhcurveto", "hhcurveto+",
+            "vvcurveto", "vvcurveto+", "hvcurveto", "hvcurveto+", "vhcurveto", "vhcurveto+"}
+FullOpName(o) == CASE o = "hhcurveto+" -> "hhcurveto" [] o = "vvcurveto+" -> "vvcurveto" [] o = "hvcurveto+" -> "hvcurveto"
+                   [] o = "vhcurveto+" -> "vhcurveto" [] OTHER -> o
+FullSegs(o) ==
+  LET B(n, K(_)) == Cat(LAMBDA i : Blk(K(i), 1, i), n) IN
+  CASE o = "rlineto"    -> B(24, LAMBDA i : "Lg")
+    [] o = "hlineto"    -> B(48, LAMBDA i : IF i % 2 = 1 THEN "Lh" ELSE "Lv")
+    [] o = "vlineto"    -> B(48, LAMBDA i : IF i % 2 = 1 THEN "Lv" ELSE "Lh")
+    [] o = "rrcurveto"  -> B(8, LAMBDA i : "Cg")
+    [] o = "rcurveline" -> B(8, LAMBDA i : IF i <= 7 THEN "Cg" ELSE "Lg")          \* 44 operands (the next form has 50)
+    [] o = "rlinecurve" -> B(22, LAMBDA i : IF i <= 21 THEN "Lg" ELSE "Cg")
+    [] o = "hhcurveto"  -> B(12, LAMBDA i : "Chh")
+    [] o = "hhcurveto+" -> B(11, LAMBDA i : IF i = 1 THEN "Cxh" ELSE "Chh")        \* 45 operands
+    [] o = "vvcurveto"  -> B(12, LAMBDA i : "Cvv")
+    [] o = "vvcurveto+" -> B(11, LAMBDA i : IF i = 1 THEN "Cxv" ELSE "Cvv")
+    [] o = "hvcurveto"  -> B(12, LAMBDA i : IF i % 2 = 1 THEN "Chv" ELSE "Cvh")
+    [] o = "hvcurveto+" -> B(11, LAMBDA i : IF i = 11 THEN "Chx" ELSE IF i % 2 = 1 THEN "Chv" ELSE "Cvh")
+    [] o = "vhcurveto"  -> B(12, LAMBDA i : IF i % 2 = 1 THEN "Cvh" ELSE "Chv")
+    [] o = "vhcurveto+" -> B(11, LAMBDA i : IF i = 11 THEN "Cvx" ELSE IF i % 2 = 1 THEN "Cvh" ELSE "Chv")
+\* the longest argument list of at most lim entries
+LongestArgs(op, segs, lim) ==
+  LET ok == {x \in Match(op, segs) : Len(x) <= lim} IN CHOOSE x \in ok : \A y \in ok : Len(y) <= Len(x)
+
 ---------------------------------------------------------------------------
 \* Cases.  Every case has the same fields.
 IsCff2(kind) == kind \in {"cff2", "cff2fd"}
@@ -198,7 +224,9 @@ FeatOf(fam, tag, ls, gs) ==
   IF fam = "blend" THEN tag
   ELSE IF fam = "misc" THEN (IF tag \in {"space", "hints-only"} THEN "empty-outline"
                             ELSE IF tag \in {"cff2-hvcurveto-53-operands", "cff2-vhcurveto-53-operands"}
-                                 THEN "cff2-more-than-48-operands" ELSE tag)
+                                 THEN "cff2-more-than-48-operands"
+                            ELSE IF tag \in {"cff-stack-48-" \o o : o \in FullOps} \cup {"cff-stack-47-and-subr-number"}
+                                 THEN "cff-operand-stack-at-limit" ELSE tag)
   ELSE IF fam = "seac" THEN tag.feat
   ELSE IF ls # <<>> THEN "lsubr" ELSE IF gs # <<>> THEN "gsubr" ELSE "nosubr"
 \* sf: the font of a seac case - charset, number of glyphs, glyph id of the accented glyph, whether the
@@ -291,15 +319,13 @@ WrapChunks(kind, w, mf, h, path) ==
 Last(s) == s[Len(s)]
 Front(s) == SubSeq(s, 1, Len(s) - 1)
 
-WrapCase(kind, w, mf, h, fk, path, pname) ==
-  LET ch == WrapChunks(kind, w, mf, h, path)
-      r == RET(kind)
-      nL == 5 nG == 3
-      iL == 2 iG == 1 iL2 == 4
+\* One of the subroutine factorings of a chunked program: a set of [prog, ls, gs] (empty where the factoring
+\* does not apply).  The subroutines are local oL + 0 .. 4 of nL and global oG + 0 .. 4 of nG.
+Factored(kind, ch, fk, oL, oG, nL, nG) ==
+  LET r == RET(kind)
+      iL == oL + 2 iG == oG + 1 iL2 == oL + 4
       L(i, t) == [i |-> i, t |-> t]
-      mk(prog, ls, gs) ==
-        {Case("wrap", pname \o "/" \o h \o "/" \o fk \o (IF w THEN "/w" ELSE ""), kind, prog, ls, gs, nL, nG,
-              <<>>, NoSeac, NoVar, path, TRUE)}
+      mk(prog, ls, gs) == {[prog |-> prog, ls |-> ls, gs |-> gs]}
       all == ch.pre \o ch.mv1 \o ch.b1 \o ch.mid \o ch.rest \o END(kind) IN
   CASE fk = "none" -> mk(all, <<>>, <<>>)
     [] fk = "Lop" -> mk(ch.pre \o ch.mv1 \o CallTok(iL, nL, FALSE) \o ch.mid \o ch.rest \o END(kind),
@@ -317,15 +343,17 @@ WrapCase(kind, w, mf, h, fk, path, pname) ==
     [] fk = "nest3" -> mk(ch.pre \o ch.mv1 \o CallTok(iL, nL, FALSE) \o ch.mid \o ch.rest \o END(kind),
                           <<L(iL, CallTok(iG, nG, TRUE) \o r), L(iL2, ch.b1 \o r)>>,
                           <<L(iG, CallTok(iL2, nL, FALSE) \o r)>>)
-    \* ten nested calls, the limit of TN5177 appendix B: local 0 -> global 0 -> local 1 -> ... -> global 4
-    [] fk = "deep10" ->
-         LET n10 == 5
-             lsub(j) == L(j, CallTok(j, n10, TRUE) \o r)                   \* local j calls global j
-             gsub(j) == L(j, IF j = 4 THEN ch.b1 \o r ELSE CallTok(j + 1, n10, FALSE) \o r) IN
-         {Case("wrap", pname \o "/" \o h \o "/deep10" \o (IF w THEN "/w" ELSE ""), kind,
-               ch.pre \o ch.mv1 \o CallTok(0, n10, FALSE) \o ch.mid \o ch.rest \o END(kind),
-               [j \in 1 .. 5 |-> lsub(j - 1)], [j \in 1 .. 5 |-> gsub(j - 1)], n10, n10,
-               <<>>, NoSeac, NoVar, path, TRUE)}
+    \* a chain of nested calls, local oL -> global oG -> local oL + 1 -> ...: ten, the limit of TN5177 appendix B
+    \* (last: global oG + 4), or nine (last: local oL + 4)
+    [] fk \in {"deep10", "deep9"} ->
+         LET deep == IF fk = "deep10" THEN 10 ELSE 9
+             glob(k) == k % 2 = 0                                        \* the subroutine at nesting level k
+             idx(k) == IF glob(k) THEN oG + k \div 2 - 1 ELSE oL + (k - 1) \div 2
+             call(k) == CallTok(idx(k), IF glob(k) THEN nG ELSE nL, glob(k))
+             body(k) == IF k = deep THEN ch.b1 \o r ELSE call(k + 1) \o r IN
+         mk(ch.pre \o ch.mv1 \o call(1) \o ch.mid \o ch.rest \o END(kind),
+            [j \in 1 .. (deep + 1) \div 2 |-> L(idx(2 * j - 1), body(2 * j - 1))],
+            [j \in 1 .. deep \div 2 |-> L(idx(2 * j), body(2 * j))])
     \* the end of the glyph (with endchar for CFF) lives in a subroutine
     [] fk = "tail" -> mk(ch.pre \o ch.mv1 \o ch.b1 \o CallTok(iL, nL, FALSE),
                          <<L(iL, ch.mid \o ch.rest \o END(kind))>>, <<>>)
@@ -339,6 +367,12 @@ WrapCase(kind, w, mf, h, fk, path, pname) ==
     [] fk = "masksub" -> IF ch.mid = <<>> THEN {}
                          ELSE mk(ch.pre \o ch.mv1 \o ch.b1 \o CallTok(iG, nG, TRUE) \o ch.rest \o END(kind),
                                  <<>>, <<L(iG, ch.mid \o r)>>)
+
+WrapCase(kind, w, mf, h, fk, path, pname) ==
+  LET nL == 5
+      nG == IF fk = "deep10" THEN 5 ELSE 3 IN
+  { Case("wrap", pname \o "/" \o h \o "/" \o fk \o (IF w THEN "/w" ELSE ""), kind, f.prog, f.ls, f.gs, nL, nG,
+         <<>>, NoSeac, NoVar, path, TRUE) : f \in Factored(kind, WrapChunks(kind, w, mf, h, path), fk, 0, 0, nL, nG) }
 
 WrapCases(kind, pname, w, h, fk) ==
   LET path == WrapPaths[pname] IN
@@ -425,6 +459,52 @@ SeacCases(codes, charset, ow, cw, chint) ==
          <<[i |-> GidByPos(chs, n, sb), t |-> comp(bpath, 31, 0)], [i |-> GidByPos(chs, n, sa), t |-> comp(apath, 32, 11)]>>,
          [cs |-> chs, n |-> n, gid |-> gid, wf |-> TRUE, cls |-> <<SidClass(chs, n, sb), SidClass(chs, n, sa)>>],
          NoVar, SeacPath(bpath, apath, adx, ady), TRUE) }
+
+\* (c) subroutines in the components and around the seac endchar.  Base and accent are two-contour glyphs
+\*     written as the wrap family writes a glyph (own width, own hint prologue and mid-path mask) in every
+\*     subroutine factoring: a component calls local / global subroutines that return before its end, nests
+\*     them (nine deep), has its endchar, its first moveto operator, its hints or its mask in a subroutine.
+\*     The font's subroutine INDEXes are shared: base local / global 0 .. 4, accent 5 .. 9, the accented
+\*     glyph itself 10.  ofk: the seac endchar plain, its four arguments pushed by a global subroutine, or
+\*     the endchar operator in a local subroutine.  codes <<c, c>>: one glyph is base and accent, its
+\*     subroutines run twice.
+CompFactorKinds == {"none", "Lop", "Gop", "Lopr", "Gargs", "nest2", "nest3", "deep9", "tail", "movesub",
+                    "hintsub", "masksub"}
+SeacSubCases(codes, charset, bfk, afk, h, cw, ofk) ==
+  LET same == codes[1] = codes[2]
+      bpath == WrapPaths["a"]
+      apath == IF same THEN bpath ELSE WrapPaths["h"]
+      adx == 300 * ONE  ady == 0 - 40 * ONE
+      sb == StdEncSid(codes[1])  sa == StdEncSid(codes[2])
+      chs == IF charset = "iso" THEN IsoCs ELSE [fmt |-> "f0", ranges |-> << <<sa, 0>>, <<300, 0>>, <<sb, 0>> >>]
+      n == IF charset = "iso" THEN 229 ELSE 4
+      gid == IF charset = "iso" THEN 200 ELSE 2
+      nS == 11
+      L(i, t) == [i |-> i, t |-> t]
+      bF == Factored("cff", WrapChunks("cff", cw, App("rmoveto", bpath[1].mv), h, bpath), bfk, 0, 0, nS, nS)
+      aF == IF same THEN {[prog |-> <<>>, ls |-> <<>>, gs |-> <<>>]}
+            ELSE Factored("cff", WrapChunks("cff", cw, App("hmoveto", <<apath[1].mv[1]>>), h, apath), afk, 5, 5, nS, nS)
+      args == <<N(adx), N(ady), N(codes[1] * ONE), N(codes[2] * ONE)>>
+      wtok == <<N(55 * ONE)>>
+      out == CASE ofk = "plain" -> [prog |-> wtok \o args \o <<O("endchar")>>, ls |-> <<>>, gs |-> <<>>]
+               [] ofk = "Gargs" -> [prog |-> wtok \o CallTok(10, nS, TRUE) \o <<O("endchar")>>, ls |-> <<>>,
+                                    gs |-> <<L(10, args \o <<O("return")>>)>>]
+               [] ofk = "Lend"  -> [prog |-> wtok \o args \o CallTok(10, nS, FALSE), gs |-> <<>>,
+                                    ls |-> <<L(10, <<O("endchar")>>)>>]
+      text == "subrs-base-" \o bfk \o "+accent-" \o (IF same THEN "is-base" ELSE afk) \o "+hints-" \o h
+              \o (IF cw THEN "+compwidth" ELSE "") \o "+outer-" \o ofk \o "+" \o charset
+      feat == IF same THEN "component-subrs-same-glyph-twice"
+              ELSE IF afk # "none" THEN "component-subrs-accent"
+              ELSE IF bfk # "none" THEN "component-subrs-base"
+              ELSE IF ofk # "plain" THEN "outer-subrs" ELSE "components-two-contours" IN
+  { Case("seac", [text |-> text, feat |-> feat], "cff", out.prog,
+         b.ls \o a.ls \o out.ls, b.gs \o a.gs \o out.gs, nS, nS,
+         <<[i |-> GidByPos(chs, n, sb), t |-> b.prog]>>
+           \o (IF same THEN <<>> ELSE <<[i |-> GidByPos(chs, n, sa), t |-> a.prog]>>),
+         [cs |-> chs, n |-> n, gid |-> gid, wf |-> TRUE, cls |-> <<SidClass(chs, n, sb), SidClass(chs, n, sa)>>],
+         NoVar, SeacPath(bpath, apath, adx, ady),
+         \* step by step where one side is plain or both are factored alike, in one big step otherwise
+         bfk = "none" \/ afk = "none" \/ bfk = afk) : b \in bF, a \in aF }
 
 \* (b) the charset: formats 0, 1, 2 and the three predefined charsets x where the component's SID sits
 \*     (first / later range; first, last, inner or only SID of its range; not in the font, next to a
@@ -555,8 +635,34 @@ MiscCases ==
                         segs |-> Cat(LAMBDA i : Blk(IF (i % 2 = 1) = first THEN (IF i = 13 THEN "Chx" ELSE "Chv")
                                                     ELSE (IF i = 13 THEN "Cvx" ELSE "Cvh"), 1, i), 13)]>>
       longop(first) == IF first THEN "hvcurveto" ELSE "vhcurveto"
-      tiny == <<[mv |-> <<1, -1>>, segs |-> <<SegL(65535, -65535), SegL(ONE + 32768, 0 - 32768)>>]>> IN
+      tiny == <<[mv |-> <<1, -1>>, segs |-> <<SegL(65535, -65535), SegL(ONE + 32768, 0 - 32768)>>]>>
+      full(o) == <<[mv |-> <<V(1, 0, 1), V(1, 0, 2)>>, segs |-> FullSegs(o)]>>
+      fullargs(o) == LongestArgs(FullOpName(o), FullSegs(o), 48)
+      \* CFF2: 513 operands, the limit of the CFF2 charstring format, for one hlineto
+      zig == <<[mv |-> <<V(1, 0, 1), V(1, 0, 2)>>,
+                segs |-> [i \in 1 .. 513 |-> IF i % 2 = 1 THEN SegL(Sgn((i + 1) \div 2) * ((i % 5) + 1) * ONE, 0)
+                                                         ELSE SegL(0, Sgn(i \div 2) * ((i % 7) + 1) * ONE)]]>>
+      \* CFF2: a blend of n values over the two regions of Reg1's first ItemVariationData: 3 n + 1 operands,
+      \* the n results drawn by one hlineto
+      wide(n) == App("rmoveto", <<10 * ONE, 10 * ONE>>)
+                 \o [i \in 1 .. n |-> N(Sgn(i) * ((i % 9) + 1) * ONE)]
+                 \o Cat(LAMBDA i : <<N(Sgn(i + 1) * 2 * ((i % 3) + 1) * ONE), N(Sgn(i) * 4 * ((i % 2) + 1) * ONE)>>, n)
+                 \o <<N(n * ONE), O("blend"), O("hlineto")>> IN
   UNION {
+    { Case("misc", "cff-stack-48-" \o o, "cff",
+           App("rmoveto", full(o)[1].mv) \o App(FullOpName(o), fullargs(o)) \o <<O("endchar")>>,
+           <<>>, <<>>, 0, 0, <<>>, NoSeac, NoVar, full(o), TRUE) : o \in FullOps },
+    \* 47 operands and the subroutine number are 48 entries; the subroutine pushes the last operand
+    { Case("misc", "cff-stack-47-and-subr-number", "cff",
+           App("rmoveto", full("hlineto")[1].mv) \o Nums(Front(fullargs("hlineto"))) \o CallTok(2, 5, FALSE) \o <<O("endchar")>>,
+           <<[i |-> 2, t |-> <<N(Last(fullargs("hlineto"))), O("hlineto"), O("return")>>]>>, <<>>, 5, 0,
+           <<>>, NoSeac, NoVar, full("hlineto"), TRUE) },
+    { Case("misc", "cff2-513-operands", "cff2",
+           App("rmoveto", zig[1].mv) \o App("hlineto", LongestArgs("hlineto", zig[1].segs, 513)),
+           <<>>, <<>>, 0, 0, <<>>, NoSeac, NoVar, zig, TRUE) },
+    { Case("misc", "cff2-blend-" \o (IF n = 85 THEN "256" ELSE "511") \o "-operands", "cff2", wide(n),
+           <<>>, <<>>, 0, 0, <<>>, NoSeac, [regions |-> Reg1, tuple |-> t, dvs |-> 0], <<>>, TRUE) :
+        n \in {85, 170}, t \in {<<8192>>, <<-8192>>, <<0>>} },
     { Case("misc", "space", k, END(k), <<>>, <<>>, 0, 0, <<>>, NoSeac, NoVar, <<>>, TRUE) : k \in {"cff", "cff2"} },
     { Case("misc", "space-w", "cff", <<N(250 * ONE), O("endchar")>>, <<>>, <<>>, 0, 0, <<>>, NoSeac, NoVar, <<>>, TRUE) },
     { Case("misc", "hints-only", k, StemsTok(0, 1) \o <<O("hstem")>> \o END(k), <<>>, <<>>, 0, 0, <<>>, NoSeac,
@@ -581,6 +687,11 @@ SeqsUpTo(S, n) == IF n = 0 THEN {<<>>}
 SeqsOfLen(S, n) == IF S = {} THEN {} ELSE {q \in SeqsUpTo(S, n) : Len(q) = n}
 BlockSeqs(n) == SeqsUpTo(BlockKinds, n) \ {<<>>}
 Kinds == {"cff", "cid", "cff2", "cff2fd"}
+\* seac (c): quick - one side plain, or both sides factored alike; thorough - every pair
+SeacSubPairs == IF SeacFull THEN CompFactorKinds \X CompFactorKinds
+                ELSE {<<x, "none">> : x \in CompFactorKinds} \cup {<<"none", x>> : x \in CompFactorKinds}
+                     \cup {<<x, x>> : x \in CompFactorKinds}
+SeacSubHints == {"none", "hm9", "hmmid"}
 
 Selections ==
        {[fam |-> "forms", kind |-> "cff", p |-> 1, ks |-> ks] : ks \in BlockSeqs(MaxBlocks)}
@@ -598,6 +709,14 @@ Selections ==
            ow \in BOOLEAN, cw \in BOOLEAN, chint \in {0, 1, 5}}
   \cup UNION { {[fam |-> "seacset", font |-> nm, codes |-> cd, ow |-> ow] :
                     cd \in SeacSetCodes(nm), ow \in (IF SeacFull THEN BOOLEAN ELSE {TRUE})} : nm \in SeacFontNames }
+  \cup {[fam |-> "seacsub", codes |-> <<65, 194>>, charset |-> "iso", bfk |-> p[1], afk |-> p[2], h |-> h, cw |-> cw, ofk |-> "plain"] :
+           p \in SeacSubPairs, h \in SeacSubHints, cw \in BOOLEAN}
+  \cup {[fam |-> "seacsub", codes |-> <<65, 194>>, charset |-> chs, bfk |-> p[1], afk |-> p[2], h |-> h, cw |-> TRUE, ofk |-> ofk] :
+           p \in (IF SeacFull THEN {q \in SeacSubPairs : "deep9" \notin {q[1], q[2]}}
+                             ELSE {<<"none", "none">>, <<"Lop", "Gop">>, <<"nest2", "Lopr">>, <<"tail", "nest3">>}),
+           h \in {"none", "hm9"}, ofk \in {"Gargs", "Lend"}, chs \in {"iso", "custom"}}
+  \cup {[fam |-> "seacsub", codes |-> <<65, 65>>, charset |-> "iso", bfk |-> fk, afk |-> fk, h |-> h, cw |-> TRUE, ofk |-> "plain"] :
+           fk \in CompFactorKinds, h \in {"none", "hmmid"}}
   \cup {[fam |-> "blend", regions |-> Reg1, tuple |-> t, vs |-> vs, insub |-> b] :
            t \in BlendTuples1, vs \in {"none0", "priv1", "op1"}, b \in BOOLEAN}
   \cup {[fam |-> "blend", regions |-> Reg2, tuple |-> t, vs |-> vs, insub |-> b] :
@@ -610,6 +729,7 @@ CasesOf(s) ==
     [] s.fam = "bias"  -> BiasCases(s.kind, s.cnt, s.g)
     [] s.fam = "seac"  -> SeacCases(s.codes, s.charset, s.ow, s.cw, s.chint)
     [] s.fam = "seacset" -> SeacSetCases(s.font, s.codes, s.ow)
+    [] s.fam = "seacsub" -> SeacSubCases(s.codes, s.charset, s.bfk, s.afk, s.h, s.cw, s.ofk)
     [] s.fam = "blend" -> BlendCases(s.regions, s.tuple, s.vs, s.insub)
     [] s.fam = "misc"  -> MiscCases
 
@@ -694,7 +814,8 @@ EmitCase ==
                              wf |-> cs.wf, scls |-> cs.scls,
                              regions |-> cs.regions, tuple |-> cs.tuple, dvs |-> cs.dvs,
                              stats |-> [maxStack |-> m.maxStack, maxDepth |-> m.maxDepth, nStems |-> m.nStems,
-                                        width |-> m.width # <<>>],
+                                        width |-> m.width # <<>>,
+                                        retBase |-> m.compRet[1], retAcc |-> m.compRet[2]],
                              exp |-> ExpOutcome(m)])>>)
 
 \* the bias thresholds of TN5176 section 16 (checked by TLC before the exploration starts)
